@@ -1441,6 +1441,7 @@ def check(repo: Repo, res, parser: ClassInfo, rule: str = "C06.R6") -> None:
         res.undecide(rule, key, f"the call tree of {fi.qualname} is too large to walk ({w.steps} steps)", where(fi, fi.node))
         return
     findings, info = analyse(w)
+    info["fixture"] = fixture_selfcheck()
     res.analysed["parse_state"] = info
     for n in w.notes[:5]:
         res.observe(f"{rule}: {n}")
@@ -1466,3 +1467,43 @@ def check(repo: Repo, res, parser: ClassInfo, rule: str = "C06.R6") -> None:
             where(fi, fi.node),
             kind="effect",
         )
+
+
+# ------------------------------------------------------------------------------------------------------- positive fixture
+def fixture_selfcheck() -> str:
+    """Runs the walk on every class of engine/fixtures/c06_parse_state.py: `Stateful*` must yield a finding, `Fresh*` must not.
+
+    The expected number of findings on the real tree is zero, so this is what shows on every run that the rule still bites."""
+    import shutil
+    import tempfile
+    from pathlib import Path
+
+    fx = Path(__file__).resolve().parents[1] / "fixtures" / "c06_parse_state.py"
+    tmp = Path(tempfile.mkdtemp(prefix="pta-fixture-"))
+    try:
+        (tmp / "src" / "pytestarch").mkdir(parents=True)
+        shutil.copy(fx, tmp / "src" / "pytestarch" / "fixture_c06_parse_state.py")
+        repo = Repo(tmp)
+        mod = repo.modules["pytestarch.fixture_c06_parse_state"]
+        bad: list[str] = []
+        n_bad = n_good = 0
+        for name, ci in mod.classes.items():
+            fi = ci.methods.get("parse")
+            if fi is None:
+                continue
+            w = Walker(repo, ci)
+            done = w.run(fi)
+            findings, _info = analyse(w)
+            if name.startswith("Stateful"):
+                n_bad += 1
+                if not done or not findings:
+                    bad.append(f"{name}: no finding")
+            elif name.startswith("Fresh"):
+                n_good += 1
+                if not done or findings:
+                    bad.append(f"{name}: {[pretty(f.fam) for f in findings] or 'walk abandoned'}")
+        if bad or not n_bad or not n_good:
+            raise AnalysisError(f"C06.R6 fixture: parsers not classified as expected: {bad}")
+        return f"{n_bad} history-dependent and {n_good} history-free parsers of engine/fixtures/c06_parse_state.py classified as expected"
+    finally:
+        shutil.rmtree(tmp, ignore_errors=True)
